@@ -222,6 +222,9 @@ def search(ctx):
     # the recorded prefilter finding (F-C09-a): replayed on every run
     cases.append({"pair": ("pixee:python/add-requests-timeouts", "pixee:python/url-sandbox"), "seed": 1,
                   "extra_files": {"known.py": 'import requests\nrequests.get("https://example.com").json()\n'}})
+    # a file no codemod can parse: each codemod of the batch reports it failed, as each separate invocation does
+    for pair in [("pixee:python/use-generator", "pixee:python/fix-assert-tuple"), ("pixee:python/numpy-nan-equality", "pixee:python/use-walrus-if")]:
+        cases.append({"pair": pair, "seed": rng.randint(0, 10**9), "extra_files": {"legacy.py": 'print "python 2"\n'}, "tag": "unparsable-file"})
     # a manifest that is also a scanned source file: the first codemod's dependency lands in setup.py (shifting its
     # lines), the second codemod has a finding further down in that same file
     SETUP = ('from setuptools import setup\nimport random\nimport subprocess\n\nsetup(\n    name="x",\n    version="0.1",\n    install_requires=[\n        "requests",\n    ],\n)\n\n'
